@@ -522,14 +522,6 @@ pub fn timeout_any() -> Duration {
     Duration::from_secs(t)
 }
 
-/// every interval the server's option negotiation acknowledges (real parse_options)
-pub fn timeout_any_u64() -> Duration {
-    match crate::server::verif_harness::acked_timeout_any() {
-        Some(d) => d,
-        None => { kani::assume(false); Duration::ZERO }
-    }
-}
-
 pub fn fmt_stub(_args: std::fmt::Arguments<'_>) -> String { String::new() }
 pub fn sleep_stub(_d: Duration) {}
 
@@ -549,7 +541,7 @@ macro_rules! snd_inject {
         fn $name() {
             let fdata: [u8; CAP] = kani::any();
             let b0: u16 = if $b0lo == $b0hi { $b0lo } else { let b: u16 = kani::any(); kani::assume(b >= $b0lo && b <= $b0hi); b };
-            let timeout = if $tmo == 0 { timeout_any() } else if $tmo == 99999 { timeout_any_u64() } else { Duration::from_secs($tmo) };
+            let timeout = if $tmo == 0 { timeout_any() } else { Duration::from_secs($tmo) };
             unsafe {
                 FS.exists = true; FS.gen = 1; FS.len = $flen; FS.data = fdata; FS.fail_at = CAP;
                 verif::START_BLOCK = if $fs { None } else { Some(b0) };
@@ -586,7 +578,7 @@ macro_rules! rcv_inject {
             let fdata: [u8; CAP] = kani::any();
             let pb: [u8; CAP] = kani::any();
             let b0: u16 = if $b0lo == $b0hi { $b0lo } else { let b: u16 = kani::any(); kani::assume(b >= $b0lo && b <= $b0hi); b };
-            let timeout = if $tmo == 0 { timeout_any() } else if $tmo == 99999 { timeout_any_u64() } else { Duration::from_secs($tmo) };
+            let timeout = if $tmo == 0 { timeout_any() } else { Duration::from_secs($tmo) };
             unsafe {
                 FS.exists = true; FS.gen = 1; FS.len = $flen; FS.data = fdata; FS.fail_at = CAP;
                 verif::START_BLOCK = if $start { None } else { Some(b0) };
@@ -622,3 +614,127 @@ macro_rules! rcv_inject {
         }
     };
 }
+
+// ---- instances generated by the driver ----
+rcv_inject!(c04_rcv_w1_j0_f2_d2, 1, 2, 0, 2, 1, [(31, 99999, 2, -1)], 0, 2848, 0, 65535, false, 12);
+rcv_inject!(c04_rcv_w2_j1_f0_d2, 2, 2, 1, 0, 1, [(31, 99999, 2, -1)], 0, 2848, 0, 65535, false, 12);
+rcv_inject!(c04_rcv_w3_j2_f2_d1, 3, 2, 2, 2, 1, [(31, 99999, 1, -1)], 0, 2848, 0, 65535, false, 12);
+rcv_inject!(c04_rcv_w2_j0_f2_d0, 2, 2, 0, 2, 1, [(31, 99999, 0, -1)], 0, 2848, 0, 65535, false, 12);
+rcv_inject!(c04_reack_w1_f2_r0, 1, 2, 0, 2, 1, [(4, 0, 2, 0),(1, 99999, 0, 6)], 5, 6944, 9, 9, false, 12);
+rcv_inject!(c04_reack_w2_f4_r0, 2, 2, 0, 4, 1, [(4, 0, 2, 0),(1, 99999, 0, 6)], 5, 6944, 9, 9, false, 12);
+rcv_inject!(c04_reack_w2_f4_r1, 2, 2, 0, 4, 1, [(4, -1, 2, 0),(1, 99999, 0, 6)], 5, 6944, 9, 9, false, 12);
+
+/// Test generated for harness `worker::verif_harness::c04_reack_w1_f2_r0` 
+///
+/// Check for `assertion`: ""ORACLE reack: lost ACK never repaired (no re-ACK after a duplicate of the last acknowledged block nor after the following time-out)""
+///
+/// # Warning
+///
+/// Concrete playback tests combined with stubs or contracts is highly
+/// experimental, and subject to change.
+///
+/// The original harness has stubs which are not applied to this test.
+/// This may cause a mismatch of non-deterministic values if the stub
+/// creates any non-deterministic value.
+/// The execution path may also differ, which can be used to refine the stub
+/// logic.
+
+#[test]
+fn kani_concrete_playback_c04_reack_w1_f2_r0_13924274854074590064_0() {
+    let concrete_vals: Vec<Vec<u8>> = vec![
+        // 0
+        vec![0],
+        // 0
+        vec![0],
+        // 1
+        vec![1],
+        // 0
+        vec![0],
+        // 0
+        vec![0],
+        // 0
+        vec![0],
+        // 0
+        vec![0],
+        // 0
+        vec![0],
+        // 0
+        vec![0],
+        // 0
+        vec![0],
+        // 0
+        vec![0],
+        // 0
+        vec![0],
+        // 0
+        vec![0],
+        // 0
+        vec![0],
+        // 0
+        vec![0],
+        // 0
+        vec![0],
+        // 0
+        vec![0],
+        // 0
+        vec![0],
+        // 0
+        vec![0],
+        // 0
+        vec![0],
+        // 0
+        vec![0],
+        // 0
+        vec![0],
+        // 0
+        vec![0],
+        // 0
+        vec![0],
+        // 0
+        vec![0],
+        // 0
+        vec![0],
+        // 0
+        vec![0],
+        // 0
+        vec![0],
+        // 0
+        vec![0],
+        // 0
+        vec![0],
+        // 0
+        vec![0],
+        // 0
+        vec![0],
+        // 2
+        vec![2],
+        // 0ul
+        vec![0, 0, 0, 0, 0, 0, 0, 0],
+        // 0
+        vec![0, 0, 0, 0],
+        // 0
+        vec![0, 0],
+        // 0
+        vec![0],
+        // 0
+        vec![0],
+        // 0
+        vec![0],
+        // 0
+        vec![0],
+        // 0ul
+        vec![0, 0, 0, 0, 0, 0, 0, 0],
+        // 0
+        vec![0, 0, 0, 0],
+        // 0
+        vec![0, 0],
+        // 0
+        vec![0],
+        // 0
+        vec![0],
+        // 0
+        vec![0],
+    ];
+    kani::concrete_playback_run(concrete_vals, c04_reack_w1_f2_r0);
+}
+
